@@ -195,6 +195,21 @@ def op_cases():
         a = mk(rng, 4, 3)
         return [a], a[np.array([0, 2, 2])]
 
+    # where-masked ufuncs (written into a fresh ndarray so that the masked-out entries are defined): Add / Subtract /
+    # Positive hand the incoming gradient through unchanged, Multiply computes a fresh one
+    def masked(name, f, nin):
+        @case(name)
+        def _(rng):
+            a, b = mk(rng, 2, 3), mk(rng, 2, 3)
+            m = np.array([[True, False, True], [False, True, True]])
+            args = (a, b) if nin == 2 else (a,)
+            return list(args), f(*args, where=m, out=np.zeros((2, 3)))
+
+    masked("add_where", mg.add, 2)
+    masked("subtract_where", mg.subtract, 2)
+    masked("positive_where", mg.positive, 1)
+    masked("multiply_where", mg.multiply, 2)
+
     @case("gru")
     def _(rng):
         from mygrad.nnet.layers import gru
@@ -346,7 +361,7 @@ def run(ctx: Ctx) -> Outcome:
     out.rule = ("random programs interleaving reads, views and in-place writes (item assignment with basic/int-array incl. "
                 "repeated/boolean keys and broadcast values, augmented assignment, ufunc out= with optional where=) on bases, "
                 "views and views of views, one final backward; non-trivial = an in-place update whose target is read before and "
-                "after it; distinct by program hash.  Plus forward/mutate-input/backward cases for 21 op / layer classes (incl. the GRU, which back-propagates by itself), and 12 cases in which "
+                "after it; distinct by program hash.  Plus forward/mutate-input/backward cases for 25 op / layer classes (incl. the GRU, which back-propagates by itself), and 12 cases in which "
                 "the index object of x[index] / x[index] = v (integer/boolean tensor, ndarray, list) is changed after the forward pass.")
     seen = engcheck.report(out, results, "C05", oracle)
     # H_vars_only
